@@ -90,8 +90,9 @@ StepViol(e, s, t) ==
     \cup (IF BlockFigureOK(e, s, t) THEN {} ELSE {Sig("block:gas-figure", StepClass(e, s), e)})
 
 StepNotes(e, s, t) ==
-    (IF e.ev = "begin_block" /\ ~e.ok /\ ~CalcSpeaks(ArgsOfState(s, e.args.height))
-     THEN {Note("panic:begin_block", PanicClass(ArgsOfState(s, e.args.height)), e)} ELSE {})
+    (IF e.ev = "begin_block" /\ ~e.ok /\ ~BeginSpeaks(ArgsOfState(s, e.args.height))
+     THEN {Note("panic:begin_block", IF CalcSpeaks(ArgsOfState(s, e.args.height)) THEN "base-fee>=2^256"
+                                     ELSE PanicClass(ArgsOfState(s, e.args.height)), e)} ELSE {})
     \cup (IF e.ev = "begin_block" /\ e.ok
              /\ BelowFractionalFloor(ArgsOfState(s, e.args.height), Val(t.baseFee))
           THEN {Note("fee-below-fractional-min-gas-price", "g<T,clamped", e)} ELSE {})
@@ -136,7 +137,7 @@ TraceNext ==
                               what |-> IF r.ok # e.ok THEN "ok/err" ELSE "post-state"]})
                  /\ notes' = AddNotes(notes, StepNotes(e, st, e.post))
                  /\ cover' = cover \cup {e.ev \o ":" \o StepClass(e, st) \o (IF e.ok THEN "" ELSE ":failed")}
-                 /\ nspoke' = nspoke + (IF e.ev = "begin_block" /\ CalcSpeaks(ArgsOfState(st, e.args.height)) THEN 1 ELSE 0)
+                 /\ nspoke' = nspoke + (IF e.ev = "begin_block" /\ BeginSpeaks(ArgsOfState(st, e.args.height)) THEN 1 ELSE 0)
 
 TraceSpec == TraceInit /\ [][TraceNext]_tvars
 
